@@ -155,11 +155,30 @@ META = {
                 "stored result) and report the peer's error. About the sender-link model Link/LinkLife.v: after its detach the link writes no transfer and no "
                 "second detach except in one named transition (refutation witness given); an unseen peer detach is answered by the next operation, in kind for "
                 "close/drop/blocked send (detach() after a closing detach is not: witness); detach()/close() return only on the peer's detach and carry its error. "
-                "Both models are run against the real engines every run; session+link scripts are also checked by a direct oracle.",
+                "About the receiver-link model Link/RecvLife.v: after its detach the link writes no flow, no disposition and no second detach except in one named "
+                "transition (witness); an unseen peer detach is answered by the next operation unless that is a recv() returning a delivery queued before it (witness), "
+                "in kind for close/drop/recv (detach() is not: witness); detach()/close() return only on the peer's detach; the peer's error reaches recv() and close() "
+                "but not detach() (witnesses); the link ends its session exactly when a delivery arrives for a dropped handle (witness). "
+                "All three models are run against the real engines every run; session+link scripts are also checked by a direct oracle.",
         "design_ref": "DESIGN.md section 4, C13",
-        "note": "Trusted: Coq kernel, extraction, scripted-peer harness. Partial: receiving-link lifecycle by direct oracle only; link clauses proved with named exceptions. "
+        "note": "Trusted: Coq kernel, extraction, scripted-peer harness. Partial: link clauses proved with named exceptions; one link per session in the models. "
                 "Known findings: c13-second-detach, c13-detach-kind, c13-peer-detach-error-lost, c13-transfer-after-remote-detach.",
         "technique": "Coq proof (state invariants over event lists, case analysis of the step function) + extracted-model-vs-engine correspondence; direct oracle on combined scripts",
+    },
+    "C14": {
+        "text": "Theorems (Coq, closed) about the failure-propagation model Conn/Failure.v (connection, session, sender and receiver link with their stop-reason cells, channels, "
+                "outcome slots and one operation in progress per handle), for every state reachable by any list of application calls, peer frames, transport failures and propagation "
+                "steps: after a transport failure or a peer close, and one propagation step, both engines are stopped and no operation is pending on any handle; a peer end stops the "
+                "session and completes end() and the link operations in the same step, leaving the connection untouched; a peer detach completes the operation on that link and "
+                "leaves the other link, the session and the connection unchanged; calls issued after a stop complete in the step of the call; completions name the level that "
+                "stopped and carry the peer's error exactly when the peer supplied one; the stop-reason cells are written once and before the channels close. The exceptions "
+                "the code has are part of the statements, with refutation witnesses. The model is run against the real client every run on the abstracted cut cases; the "
+                "concrete traces (every byte offset, every injection position) are judged by the direct oracle.",
+        "design_ref": "DESIGN.md section 4, C14",
+        "note": "Trusted: Coq kernel, extraction, trace abstraction, scripted peer. Fixed: outcomes pending after a session stop (0b39716) and after a closing detach (bc4ca04), send() "
+                "after a peer detach (6e7bff8). Known findings: c14-hang-engine-stuck / c14-engine-alive (small pipe, non-reading peer), c14-hang-send-outcome (non-closing detach), "
+                "c14-peer-error-lost, c14-wrong-scope, c14-data-op-ok-after-failure, c14-peer-error-lost-after-pipe-drop.",
+        "technique": "Coq proof (inductive invariant over event lists) + extracted-model-vs-engine correspondence on abstracted fault-injection traces + direct oracle over every cut point",
     },
     "C16": {
         "text": "Theorems (Coq, closed). Receiving side (model Link/Receiver.v): dropping a pending recv() at any point of any history and re-issuing it yields the same "
